@@ -1,13 +1,26 @@
 """print the DESIGN §9 table from /verif/seeded/*/meta.json"""
 import json, os, glob
 R = os.path.dirname(os.path.dirname(os.path.abspath(__file__)))
-MISSED_FIRST = {"C01-m1": "missed by the first version (uniform random histories); caught after the Notifier history monitor and template histories were added",
-                "C03-m1": "missed while an identically zero total was accepted for a cold donor; caught after the per-term reading",
-                "C10-m2": "missed while every pipeline object was used once; caught after the re-observation monitor",
-                "C20-m2": "missed while only float64 vertex arrays were generated; caught after integer / float32 vertex grids were added",
-                "C02-m1": "missed while only the default integrator was driven; caught after the user-configured-integrator class and the integrator differential",
-                "C07-m2": "missed while each out-of-range point was requested once per rate object; caught after the call-history monitor",
-                "C18-m1": "missed while constructor defaults / no-op assignments were not generated; caught after the default-value classes and the formula monitor"}
+MISSED_FIRST = {
+ "C01-m1": "missed by the first version (uniform random histories); caught after the Notifier history monitor and template histories were added",
+ "C03-m1": "missed while an identically zero total was accepted for a cold donor; caught after the per-term reading",
+ "C10-m2": "missed while every pipeline object was used once; caught after the re-observation monitor",
+ "C20-m2": "missed while only float64 vertex arrays were generated; caught after integer / float32 vertex grids were added",
+ "C02-m1": "missed while only the default integrator was driven; caught after the user-configured-integrator class and the integrator differential",
+ "C07-m2": "missed while each out-of-range point was requested once per rate object; caught after the call-history monitor",
+ "C18-m1": "missed while constructor defaults / no-op assignments were not generated; caught after the default-value classes and the formula monitor",
+ "C20-m3": "missed while each process built unrelated grids only; caught after the sibling-grid / rebuild monitor",
+ "C20-m4": "missed while flux maps had O(1) gradients only; caught after the flux-scale invariance monitor",
+ "C02-m4": "missed while every call used a fresh line-shape object; caught after the call-sequence class",
+ "C03-m4": "missed by C03 while every evaluation used a fresh model (C01 caught it); caught by C03 after the one-instance-across-state-changes class",
+ "C06-m4": "missed while the download branch of install_* was never driven; caught after the stubbed-download mode",
+ "C11-m4": "missed while only float64 inputs were generated; caught after the input dtype / container classes",
+ "C09-m1": "missed while every case used a fresh mock provider and one donor charge; caught after the call-sequence class",
+ "C09-m2": "missed while donor profiles were all-positive or all-zero; caught after mixed zero/positive donor profiles",
+ "C09-m3": "missed while species dicts were always built in ascending order; caught after random insertion orders",
+ "C15-m4": "missed while the generator copied every list it passed; caught after the caller-owned-container aliasing monitors",
+ "C18-m3": "not caught by C18 (its histories act on profile / spectrum objects, not on re-attaching them to the Laser node); caught by C01 after same-object re-assignment mutators and the laser-geometry observable were added",
+}
 rows = []
 for d in sorted(glob.glob(os.path.join(R, "seeded", "*"))):
     mp = os.path.join(d, "meta.json")
@@ -20,6 +33,9 @@ for d in sorted(glob.glob(os.path.join(R, "seeded", "*"))):
     keys = ", ".join("`%s`" % k for k in c.get("quick_check_keys", [])[:3])
     valid = c.get("demo_exit_unchanged_tree") == 0 and c.get("demo_exit_with_change") not in (0, None) and "passed" in (c.get("repo_suite_with_change") or "")
     verdict = "caught (exit 1)" if c.get("quick_check_exit_with_change") == 1 else "NOT caught (exit %s)" % c.get("quick_check_exit_with_change")
+    oc = c.get("other_checks", {})
+    for k2, v2 in oc.items():
+        verdict += "; %s quick: %s %s" % (k2, "caught" if v2.get("quick_check_exit_with_change") == 1 else "not caught", ", ".join("`%s`" % k for k in v2.get("keys", [])[:2]))
     note = MISSED_FIRST.get(name, "")
     rows.append("| %s | %s | %s | %s | %s %s%s |" % (name, files, summ[:260], needs[:200], verdict, keys, ("; " + note) if note else ""))
 print("| seeded change | file(s) | what it changes | needs to manifest | quick check of its property |")
